@@ -19,6 +19,16 @@ use crate::value::{CheapClone, JsString};
 impl Compiler {
     /// Compile a statement
     pub fn compile_statement_impl(&mut self, stmt: &Statement) -> Result<(), JsError> {
+        // Temporaries never outlive the statement that created them. Argument windows are
+        // reserved as a block and not freed one by one, so without this every call statement
+        // leaked its argument registers and ~130 calls in one body exhausted the register file.
+        self.builder.mark_registers();
+        let result = self.compile_statement_inner(stmt);
+        self.builder.release_registers_to_mark();
+        result
+    }
+
+    fn compile_statement_inner(&mut self, stmt: &Statement) -> Result<(), JsError> {
         match stmt {
             Statement::Expression(expr_stmt) => {
                 self.builder.set_span(expr_stmt.span);
